@@ -245,6 +245,7 @@ FLUENT_TYPES = {
     "uint": ["int", None, None],
     "real": ["real", None, None],
     "breal": ["real", "0", "4"],
+    "fbreal": ["real", "1/2", "5/2"],
 }
 
 
@@ -272,7 +273,9 @@ def values_of(t, objs, tmap):
         hi = lo + 5 if t[2] is None else t[2]
         return [["int", i] for i in range(lo, hi + 1)]
     if k == "real":
-        return [["int", 0], ["real", "1/2"], ["int", 1], ["real", "3/2"], ["int", 2], ["int", 3]]
+        from fractions import Fraction as _F
+        vals = [["int", 0], ["real", "1/2"], ["int", 1], ["real", "3/2"], ["int", 2], ["int", 3]]
+        return [v for v in vals if (t[1] is None or _F(v[1]) >= _F(t[1])) and (t[2] is None or _F(v[1]) <= _F(t[2]))]
     if k == "user":
         return [["o", o] for o, ot in objs if subtype_of(tmap, ot, t[1])]
     raise ValueError(t)
